@@ -263,7 +263,11 @@ class TickRateAttribute:
 
       LOGGER.error("ttp:tickRate invalid syntax")
 
-    # default value
+    # default value: the effective frame rate if ttp:frameRate is specified, and 1 otherwise
+
+    if FrameRateAttribute.frame_rate_qn in ttml_element.attrib:
+
+      return FrameRateAttribute.extract(ttml_element)
 
     return 1
 
